@@ -38,6 +38,7 @@ import (
 	"sort"
 	"strconv"
 	"strings"
+	"sync"
 	"time"
 
 	"ebuverif/internal/h"
@@ -484,6 +485,32 @@ type runResult struct {
 	Calls  []string // "name file-suffix" of every matching system call entered (traced runs)
 	Killed bool
 	Exit   int
+	Missed bool // degraded mode: the child was not killed at the intended call
+}
+
+// Degraded mode. The crash enumeration relies on the store doing its I/O on the calling
+// goroutine, so that the system calls of a history form one reproducible sequence and
+// "kill on entry to call k" can be verified. A tree that moves the I/O to goroutines of its
+// own (a writer goroutine per store, say) makes the sequence vary from run to run and the
+// per-thread injection counters miss. That is not a verdict either way, so it must be
+// neither an alarm nor a broken check: the enumeration goes on, every kill that does
+// happen is judged as before (the oracle needs only the child's own log of acknowledged
+// operations and the recovered database), points where no kill happened are counted as
+// missed, and the run is reported as not exhaustive.
+var degraded struct {
+	sync.Mutex
+	on      bool
+	reasons map[string]int
+}
+
+func degrade(reason string) {
+	degraded.Lock()
+	degraded.on = true
+	if degraded.reasons == nil {
+		degraded.reasons = map[string]int{}
+	}
+	degraded.reasons[reason]++
+	degraded.Unlock()
 }
 
 var self string
@@ -615,10 +642,15 @@ func killRun(what, work, db, ops string, base []string, k int) runResult {
 	}
 	r := runChild(work, db, ops, true, name, nth)
 	if !r.Killed {
-		fault("%s: child was not killed at call %d of %d (%s #%d; exit %d) — injection refused or call sequence not reproducible", what, k, len(base), name, nth, r.Exit)
+		if r.Exit != 0 && r.Exit != 3 {
+			fault("%s: child neither killed nor finished at call %d of %d (%s #%d; exit %d)", what, k, len(base), name, nth, r.Exit)
+		}
+		degrade("the child was not killed at the intended call (system-call sequence differs between runs)")
+		r.Missed = true
+		return r
 	}
 	if strings.Join(r.Calls, ";") != strings.Join(base[:k], ";") {
-		fault("%s: killed at call %d (%s #%d) but the calls before the kill differ from the uninjected run:\n%v\n%v", what, k, name, nth, r.Calls, base[:k])
+		degrade("the calls before a kill differ from the uninjected run")
 	}
 	return r
 }
@@ -789,6 +821,9 @@ func crashCases(hh history, base []string, k, level2 int, timeUp func() bool, em
 	what := fmt.Sprintf("history %s k=%d", hh.Name, k)
 	r := killRun(what, work, db, hh.Ops, base, k)
 	children++
+	if r.Missed {
+		return
+	}
 	log = append(log, r.Lines...)
 	img := filepath.Join(work, "img")
 	if level2 != 0 {
@@ -828,6 +863,9 @@ func crashCases(hh history, base []string, k, level2 int, timeUp func() bool, em
 		copyDir(img, filepath.Dir(db))
 		r2 := killRun(fmt.Sprintf("%s level2k=%d", what, k2), work, db, recoverOps, base2, k2)
 		children++
+		if r2.Missed {
+			continue
+		}
 		res := judge(crashCase{History: hh.Name, K: k, Level2K: k2, Clean: -1}, db, append(append([]string{}, log...), r2.Lines...))
 		res.Nontrivial = nontrivialAt(base2, k2)
 		res.KilledAt = base2[k2-1]
@@ -854,7 +892,10 @@ func baseline(hh history, n int) []string {
 		if i == 0 {
 			first = r.Calls
 		} else if strings.Join(first, ";") != strings.Join(r.Calls, ";") {
-			fault("history %s: system-call sequence not reproducible (%d vs %d calls)", hh.Name, len(first), len(r.Calls))
+			degrade("uninjected runs of a history do not agree call by call")
+			if len(r.Calls) > len(first) {
+				first = r.Calls
+			}
 		}
 	}
 	return first
@@ -964,6 +1005,15 @@ func run(c *h.Check) {
 			c.Count("evaluations", int64(n))
 		}
 	}
+	degraded.Lock()
+	if degraded.on {
+		c.P.Capped = true
+		for r, n := range degraded.reasons {
+			c.Count("degraded: "+r, int64(n))
+		}
+		c.Note("DEGRADED: the store's system calls are not one reproducible sequence on this tree (I/O on goroutines of its own?); every kill that happened was judged, kill points that were missed are counted above, and the run is not exhaustive")
+	}
+	degraded.Unlock()
 }
 
 func replay(c *h.Check, rf *h.ReplayFile) []vrt.Violation {
